@@ -467,6 +467,7 @@ class Worker:
         self.blocked_on: Any = None  # a SimLock this worker waits for
         self.blocks = 0
         self.hot_profile: Dict[str, int] = {}  # lines executed in functions touching shared state
+        self.in_parse = False
 
 
 class Scheduler:
@@ -542,6 +543,14 @@ class Scheduler:
         ws = self._by_ident.get(threading.get_ident())
         if ws is None or ws.done or not ws.started:
             return None
+        if tag == "L":
+            # lark is pre-emptible only while it parses on behalf of CELParser.parse (the shared
+            # parser object used concurrently).  Building a parser is excluded: lark iterates over
+            # sets of objects hashed by address there, so its line count is not reproducible.
+            if not ws.in_parse:
+                return None
+        else:
+            ws.in_parse = code.co_qualname == "CELParser.parse"
         self._yield(ws, code, line, tag)
         return None
 
